@@ -1028,24 +1028,31 @@ def replay(inp):
 
 MANIFEST_ENTRY = {
     'technique': 'Lean 4 proof (list induction / omega / ordered-field algebra over translator-generated glue) + '
-                 'sample-for-sample correspondence with the Lean model and predicate checks on the real apertures',
-    'text': ('PARTIAL.  Machine-checked, for every ring number k: hex_ring(k) (generated from the source loops) has 6k pairwise '
-             'distinct cells with q+r+s=0 at cube distance k, rings are mutually disjoint, ids run 1+3i(i-1)..3i(i+1) so R rings '
-             'give 1+3R(R+1) segments before exclusion; for every pair of distinct lattice cells, every diameter D>0, gap>0 and '
-             'both orientations the two closed hexagons (intersection of three slabs, centres from the generated hex_to_xy) have '
-             'no common point; apothem = D/2 and the clear gap between neighbours equals the requested separation; the six polygon '
-             'vertices handed to qhull are the corners of that slab hexagon; the generated window clamp always yields '
-             '0<=lo<=hi<=n with at most 2s samples; compose_opd (accumulate tile*mask through windows) is linear in the '
-             'coefficients, a change on one segment is confined to that segment\'s transmitting samples, a unit piston gives '
-             'that segment\'s indicator; circle/annulus/rectangle/ellipse/vane are exactly their analytic inequalities, grow with '
-             'their size parameters and have the stated symmetries; the (unclamped) window covers every sample within +-rseg of '
-             'the segment centre except possibly one line of samples (which side depends on the parity of n); keystone sectors '
-             '(generated ring-radius recurrence and arc&angle predicate) of one ring with non-overlapping angular intervals, of '
-             'different rings, and the central disc are pairwise disjoint for every positive gap.  Compared with the real code each run: ring walks, ids '
-             'under exclusion, centres, windows (exact), hexagon masks sample for sample, composition, primitives.'),
-    'note': ('NOT proved: that qhull find_simplex equals point-in-polygon (trusted; boundary samples within 1e-7*rho excluded), '
-             'that the convex hull of the six vertices equals the slab hexagon (compared), the wrap-around branch of the keystone '
-             'angle logic and the spider cut-outs between keystones (checked only by predicates on the real objects: segment count, '
-             'no sample in two segments, every transmitting sample in a segment, radial extent), areas (numerical bound '
-             'perimeter*dx).  Segments lying entirely outside the sampled array (empty window) are out of scope.'),
+                 'sample-for-sample correspondence with the Lean model and analytic oracles on the real apertures (incl. '
+                 'composition onto a caller-supplied non-zero `out` buffer, in one and two steps)',
+    'text': ('PARTIAL.  PROPERTY THEOREMS (all inputs): hex_ring(k) (generated from the source loops) has 6k pairwise distinct cells '
+             'with q+r+s=0 at cube distance k, rings are mutually disjoint, and by induction over the generated id arithmetic R rings '
+             'give 1+3R(R+1) segments before exclusion; for every pair of distinct lattice cells, D>0, gap>0 and both orientations the '
+             'two closed slab hexagons (centres from the generated hex_to_xy) have no common point; apothem = D/2, clear gap = requested '
+             'separation; the convex hull of the six polygon vertices handed to qhull lies inside that slab hexagon (convexity proved), '
+             'so with qhull membership trusted the rasterised masks are disjoint; the generated window clamp yields 0<=lo<=hi<=n and, '
+             'with the generated samples_per_seg = floor(rseg/dx)+2, the unclamped window contains EVERY sample within +-rseg of the '
+             'segment centre for both parities; the model of compose_opd (accumulate tile*mask through windows) is linear in the '
+             'coefficients, confined to the segment, and a unit piston gives the indicator; rectangle/ellipse are their inequalities, all '
+             'primitives grow with their size parameters and have the stated symmetries; keystone sectors (no-wrap branch) of one ring, '
+             'of different rings and the central disc are pairwise disjoint for every positive gap.  TRANSLATION IDENTITIES (syntactic or '
+             'ring-normalised equalities generated = model, and Bool facts recognised in the AST; no mathematical content of their own): '
+             'gen_hex_dirs, gen_hex_ring, gen_window, gen_centres, gen_keystone, gen_structure, the circle/annulus/vane clauses of '
+             'prims_are_inequalities.  COMPARED ON THE REAL CODE each run: ring walks, ids under exclusion, centres, windows (exact), '
+             'local_coords, hexagon masks sample for sample inside the window AND window containment on the full grid, union == amp, '
+             'area bound, OPD pistons / linearity / accumulation into a non-zero out buffer with Zernike and Cartesian bases, '
+             'composition against the model; keystone apertures sample for sample against an analytic polar oracle (centre disc, every '
+             'sector incl. the wrap-around branches, amp = annuli minus the azimuthal-gap strips); primitives sample for sample, '
+             'spider(center, rotation, rotation_is_rad), rectangle(any angle, height=None), offset_circle and polygons (3..12 sides) '
+             'against independent analytic oracles.'),
+    'note': ('NOT proved: that qhull find_simplex equals hull membership (trusted; boundary samples within 1e-7*rho excluded); the '
+             'wrap-around branch of the keystone angle logic, the spider cut-outs, windows of keystones, count after exclusion, areas '
+             '(compared / numerical bound perimeter*dx only); opd_* theorems speak about the hand model of compose_opd (tie: AST fact + '
+             'driver comparison).  Segments lying entirely outside the sampled array (empty window) are out of scope.  Too few '
+             'executed cases in any stream is a tool error (floors), not a pass.'),
 }
